@@ -69,6 +69,24 @@ HISTORY = {
     "C12/E8-m2": ("missed", "validate-only CreateTopics steps"),
     "C19/E9-m2": ("missed", "NOT CAUGHT, by decision: the change makes an empty non-nil OffsetFetchRequest.Topics ask for no topic instead of all; neither the statement nor the documentation says what an empty set asks for (nil = all is documented and checked)"),
     "C20/E10-m1": ("missed", "consumer-protocol values also sent through Client.DescribeGroups (entry describegroups), whose readers are not protocol.Unmarshal"),
+    # round 5
+    "C01/F1-m1": ("missed", "rule c01/offered-partitions: the balancer is offered the partitions of the message's own topic"),
+    "C01/F1-m2": ("missed", "NOT CAUGHT by C01's check (a close-during-calls stratum was added, but the window is a few microseconds wide); reported by C09's check (c09/writer-close-hang / completion rules), whose clause it violates: what was accepted before Close is sent and completed before Close returns"),
+    "C17/F2-m2": ("missed", "stalled connections with only the deadline of the operation's own direction set (SetWriteDeadline for writes, SetReadDeadline for reads)"),
+    "C02/F2-m2": ("caught", "reported as a process crash after 40 minutes: some shards hung until the unit timeout; quick-tier unit timeouts are now capped at 15 minutes"),
+    "C03/F3-m1": ("missed", "abandoned-commit stratum (CommitMessages gives up while its commit is in flight at a slow coordinator; the next one is refused on every attempt); gsim Step.TimeoutMs, fault kind slow"),
+    "C03/F3-m2": ("missed", "small ReaderConfig.MaxBytes in group histories (fetch responses that end inside a batch); C02's check reported it as it was"),
+    "C04/F4-m1": ("missed", "NOT CAUGHT, by decision: needs a broker whose advertised range lies entirely below the versions the Conn implements (Fetch <= v1, Produce <= v1, Metadata v0: brokers older than 0.10, which do not answer ApiVersions at all); the quantifier is 'every version in its supported range'. Adding such ceilings also makes the unchanged Conn send Metadata v1 unconditionally (Brokers / Controller / DialLeader), which the same reading puts outside the statement"),
+    "C11/F4-m1": ("missed", "TestPartialReads: a read with a buffer shorter than the value (io.ErrShortBuffer keeps the Conn) before Close"),
+    "C11/F4-m2": ("missed", "fault kind bad-length: size prefix and correlation id right, an inner string / array length points beyond the frame (fakecluster Action.MutateFrame)"),
+    "C05/F5-m2": ("missed", "logsim generates batches with the LogAppendTime attribute bit (formats 1 and 2)"),
+    "C12/F5-m2": ("missed", "coordinator stratum: the key whose coordinator moves is used before the move as well"),
+    "C06/F6-m1": ("missed", "NOT CAUGHT by C06's check; reported by C16's check within seconds (read/snappy, history independence of pooled readers after a stream that ended in an error), whose clause it violates"),
+    "C06/F6-m2": ("missed", "ended as a unit timeout (exit 2) instead of a violation: progress watchdog for Transport round trips, c06/transport/calls-never-returned"),
+    "C15/F6-m2": ("missed", "upper bound on the heartbeat rate (from arrival times) + stratum with a HeartbeatInterval above a third of the SessionTimeout"),
+    "C19/F8-m2": ("missed", "clusters whose node ids start at 0 (clusterSpec.ZeroID)"),
+    "C10/F10-m2": ("missed", "Writers / Readers with a Logger and ErrorLogger (Program.Logger)"),
+    "C13/F10-m2": ("missed", "TestConcurrentHash: one shared hashing balancer used by many goroutines, every answer compared with the reference; also in a race-detector build"),
 }
 
 
